@@ -30,7 +30,7 @@ CHECKS = {
  "C06": ("TLC trace validation (JPart/JPack judges: Contract.SumsDescribeBins and OutputTypes.Disagrees) of every algorithm called with each of the ten output types",
          "Every partitioning / packing / covering algorithm is called on every input of a TLC-enumerated universe and seeded families with all ten output types; TLC checks sums against bins and each cheaper output against the value derived from the full output.",
          "Trusted: TLC, OutputTypes.tla, exact float->integer normalisation.", "7 C06"),
- "C07": ("TLC trace validation (JPart/JPack judges: C07 clauses comparing the same call across list / numpy array / dict / names+valueof presentations)",
+ "C07": ("TLC trace validation (JPart/JPack judges: C07 clauses comparing the same call across list / numpy array / dict / names+valueof presentations, falsy names, narrow and fixed-width numpy arrays, numpy scalars in lists / dicts, values scaled by a common factor of 1e8)",
          "Every algorithm is called on every input of a TLC-enumerated universe and seeded families in four presentations; TLC compares the bags of sums and checks that named results are valid over the names and reproduce the sums.",
          "Trusted: TLC, the harness's name<->id bijection.", "7 C07"),
  "C09": ("TLC trace validation (JPack/JCertPack judges: Contract.AnyFitInvariant, integer forms of the 1.7 / 11/9 bounds against Oracles.MinBins or a TLC-checked certificate)",
@@ -42,7 +42,7 @@ CHECKS = {
  "C14": ("TLC trace validation (JPart/JPack judges: result = Textbook.tla transcription of the documented rule) + TLC model checking of the textbook machines against the contract",
          "Greedy, round-robin, ff, ffd, bf, bfd and the three covers are executed on every arrival sequence of a TLC-enumerated scope (all tie patterns, exact fills, items at binsize/2 and binsize/3) and seeded families; TLC compares bag of sums (all) and bins as bags of values (rr, ff, ffd, covers) with the rule; the rule machines are model-checked against L0 and tie freedom shown irrelevant.",
          "Trusted: TLC, Textbook.tla as the reading of the documentation.", "7 C14"),
- "C19": ("TLC trace validation (JPack C19 clause, JRefuse judge, JBigRefuse with two-limb comparison at bin sizes 2^53 / 1e16) of TLC-enumerated malformed requests: oversize items at every position / multiplicity x format x output type x packer; cbldm calls with exactly one invalid argument",
+ "C19": ("TLC trace validation (JPack C19 clause, JRefuse judge, JBigRefuse with two-limb comparison at bin sizes 2^53 / 1e16) of TLC-enumerated malformed requests: oversize items at every position / multiplicity x format x output type x packer; stepwise trace specification JScan over request histories (capacity scans in one interpreter: an oversize request is refused whatever was asked before); cbldm calls with exactly one invalid argument",
          "TLC enumerates every sequence with >=1 oversize item (<=5 items) and every cbldm call with one invalid argument; each is executed in list/dict/valueof presentation and all ten output types; TLC requires ValueError (and an answer for the all-valid control); numitems probed on both managers.",
          "Trusted: TLC.", "7 C19"),
  "C13": ("TLC model checking of the transcribed bounds (Bounds.tla admissible w.r.t. Oracles.BestReach) + TLC trace validation (J13 judge) of direct calls to Objective.lower_bound, InExclusionBinTree.generate_tree and Binner.all_combinations on TLC-enumerated universes",
@@ -57,7 +57,7 @@ CHECKS = {
  "C11": ("TLC model checking of the abstract anytime search (Anytime.tla: ResultValid, Monotone, OptimalWhenExhausted) + TLC trace specification JAnytime stepping the complete CUT HISTORY (one run per clock reading under a counting clock) of complete greedy, CBLDM and the CKK generator",
          "With a deterministic counting clock installed as the modules' time attribute, every possible cut point c = 1..R of every run on a TLC-enumerated universe (3 objectives x switch combinations; CBLDM bounds) is executed; TLC steps each history: None or a true partition, never worse with a larger limit, first complete-greedy solution = LPT, unlimited result optimal; generator yields valid, strictly improving, snapshot-stable.",
          "Trusted: TLC, Oracles.Opt/OptBalanced, the counting clock (logical cut points only, no wall-clock behaviour).", "7 C11"),
- "C15": ("TLC-generated call histories (Session.tla: every ordered pair of a 168-call menu exhaustively, simulated long histories) replayed in freshly forked interpreters + TLC trace specification JSession (return = fresh-interpreter return, arguments unchanged)",
+ "C15": ("TLC-generated call histories (Session.tla: every ordered pair of a 238-call menu exhaustively, simulated long histories; menu calls may name a caller-owned container that persists and is overwritten between calls) replayed in freshly forked interpreters + TLC trace specification JSession (return = fresh-interpreter return, arguments unchanged, state: history and containers already passed)",
          "A menu mixing all algorithms, presentations, output types, options and failing calls; TLC enumerates all ordered pairs and simulates long histories; each runs in one interpreter; TLC compares every return with the same call's return in a fresh interpreter under two hash seeds and the argument digests before/after.",
          "Trusted: TLC, canonical digest of results, process isolation by fork from a parent that only imported prtpy.", "7 C15"),
  "C17": ("TLC trace validation (JIlp judge: exhaustive enumeration of all assignments of item copies to weighted bins in TLA+) of ILP calls with copies / weights / additional constraints / injected solver statuses",
